@@ -105,6 +105,7 @@ let parse_change () = match next () with
   | "AT" -> CAddTable (parse_stable ())
   | "MT" -> CModifyTable (parse_stable ())
   | "DT" -> CDropTable (parse_stable ())
+  | "RT" -> let a = next_opt () in let b = next_opt () in CRenameTable (a, b)
   | "OT" -> let k = next_int () in COther (times k next_bytes)
   | s -> failwith ("change " ^ s)
 
@@ -127,12 +128,13 @@ let do_scope id =
 (* ---- reference skeletons *)
 let rec nat_of_int i = if i <= 0 then O else S (nat_of_int (i - 1))
 let next_bool () = next () = "1"
+let parse_enum () = match next () with
+  | "_" -> None
+  | "e" -> let ns = next_opt () in let en = next_bytes () in Some (ns, en)
+  | s -> failwith ("enum " ^ s)
 let parse_col_s () =
   let n = next_bytes () in
-  let e = (match next () with
-    | "_" -> None
-    | "e" -> let ns = next_opt () in let en = next_bytes () in Some (ns, en)
-    | s -> failwith ("enum " ^ s)) in
+  let e = parse_enum () in
   let c = next_bool () in
   { c_name = n; c_enum = e; c_comment = c }
 let parse_idx () =
@@ -165,6 +167,15 @@ let parse_sub () = match next () with
   | "DF" -> DropForeignKey (parse_fk ())
   | "AK" -> AddCheck (next_bool ())
   | "DK" -> DropCheck
+  | "MK" -> ModifyCheck
+  | "MC" ->
+    let n = next_bytes () in
+    let fe = parse_enum () in let te = parse_enum () in
+    let ty = next_bool () in let ser = next_bool () in let oth = next_bool () in let cm = next_bool () in
+    ModifyColumn (n, fe, te, ty, ser, oth, cm)
+  | "MI" -> let a = parse_idx () in let b = parse_idx () in let pa = next_bool () in let cm = next_bool () in ModifyIndex (a, b, pa, cm)
+  | "MF" -> let a = parse_fk () in let b = parse_fk () in ModifyForeignKey (a, b)
+  | "APK" -> AddPrimaryKey | "DPK" -> DropPrimaryKey | "MPK" -> ModifyPrimaryKey
   | "TC" -> TableComment
   | s -> failwith ("sub " ^ s)
 let parse_change_s () = match next () with
@@ -175,7 +186,7 @@ let parse_change_s () = match next () with
   | "AO" -> let ns = next_opt () in let n = next_bytes () in AddObject (ns, n)
   | "DO" -> let ns = next_opt () in let n = next_bytes () in DropObject (ns, n)
   | "MO" -> let ns = next_opt () in let n = next_bytes () in let k = next_int () in ModifyObject (ns, n, nat_of_int k)
-  | "RO" -> let a = next_bytes () in let b = next_bytes () in RenameObject (a, b)
+  | "RO" -> let nsf = next_opt () in let a = next_bytes () in let nst = next_opt () in let b = next_bytes () in RenameObject (nsf, a, nst, b)
   | s -> failwith ("change " ^ s)
 
 let do_skel id =
